@@ -109,7 +109,12 @@ Theorem C08_checker_accepts_get_status : forall s w, no_fault w ->
   chk_c08_call OGetStatus (next_seq s) (rscript w) (result_of (snd (cstep s w OGetStatus))) = true.
 Proof. exact chk_c08_accepts_get_status. Qed.
 
+Theorem C08_checker_accepts_get_rules : forall s w, no_fault w ->
+  chk_c08_call OGetRules (next_seq s) (rscript w) (result_of (snd (cstep s w OGetRules))) = true.
+Proof. exact chk_c08_accepts_get_rules. Qed.
+
 Print Assumptions C08_reply_found.
+Print Assumptions C08_checker_accepts_get_rules.
 Print Assumptions C08_checker_accepts_get_status.
 Print Assumptions C08_spec_reading_is_get_reply.
 Print Assumptions C08_checker_accepts_set.
